@@ -249,9 +249,9 @@ Definition formula (s0 : store) now (s1 : store) (insts : list (name * inst V)) 
          end
   end.
 
-Lemma finish_true (s0 : store) now (s1 : store) insts jn s' fx :
+Lemma finish_true (s0 : store) now (s1 : store) insts jn gn s' fx :
   Inv s0 -> Inv s1 ->
-  finish s1 (FL (snapshot s0 now) insts jn) = (s', fx, true) ->
+  finish s1 (FL (snapshot s0 now) insts jn gn) = (s', fx, true) ->
   (forall n, vv s' n = formula s0 now s1 insts n)
   /\ (forall n e, entry s0 n = Some e -> flagged s0 now n = false -> ans_of insts n (ver e) <> RErr)
   /\ ((fx = [] /\ s' = s1) \/ fx = [Flush (doc s')])
@@ -286,9 +286,9 @@ Proof.
 Qed.
 
 (* a failed request for a live name of the snapshot makes the poll fail *)
-Lemma finish_fails (s0 : store) now (s1 : store) insts jn n e :
+Lemma finish_fails (s0 : store) now (s1 : store) insts jn gn n e :
   Inv s0 -> entry s0 n = Some e -> flagged s0 now n = false -> ans_of insts n (ver e) = RErr ->
-  finish s1 (FL (snapshot s0 now) insts jn) = (s1, [], false).
+  finish s1 (FL (snapshot s0 now) insts jn gn) = (s1, [], false).
 Proof.
   intros I0 En Fl A. unfold finish. cbn [fsnap finst].
   rewrite (@poll_err (snapshot s0 now) (ans_of insts) n (ver e)); auto.
@@ -304,31 +304,51 @@ Proof. intros H1 H2 n x H. apply H2, H1, H. Qed.
 Lemma pres_eq (a b : store) : (forall n, vv b n = vv a n) -> pres a b.
 Proof. intros H n x Hx. rewrite H. exact Hx. Qed.
 
-Lemma collect_cons sv (e : event) r : collect sv (e :: r) = collect sv [e] ++ collect (srv_after sv [e]) r.
-Proof. destruct e; reflexivity. Qed.
+Lemma dead_after_cons d (e : event) r : dead_after d (e :: r) = dead_after (dead_after d [e]) r.
+Proof. reflexivity. Qed.
+
+Lemma dead_after_true (evs : list event) : dead_after true evs = true.
+Proof. induction evs as [|e r IH]; auto. rewrite dead_after_cons. destruct e as [| [|k] | | | | | | |]; exact IH. Qed.
+
+Lemma collect_cons sv d (e : event) r :
+  collect sv d (e :: r) = collect sv d [e] ++ collect (srv_after sv [e]) (dead_after d [e]) r.
+Proof. destruct e as [| [|k] | | | | | | |]; reflexivity. Qed.
 
 Lemma srv_after_cons sv (e : event) r : srv_after sv (e :: r) = srv_after (srv_after sv [e]) r.
 Proof. reflexivity. Qed.
 
 Lemma mid_pack (st : store) sv fl st' sv' fl' (e : event) :
   Inv st' -> pres st st' -> sv' = srv_after sv [e] -> fsnap fl' = fsnap fl ->
-  finst fl' = finst fl ++ collect sv [e] ->
+  finst fl' = finst fl ++ collect sv (lead_dead fl) [e] ->
+  lead_dead fl' = dead_after (lead_dead fl) [e] ->
   Inv (wst (WD st' sv' (Some fl'))) /\ pres st (wst (WD st' sv' (Some fl'))) /\
   wsv (WD st' sv' (Some fl')) = srv_after sv [e] /\
   exists fl'', wfl (WD st' sv' (Some fl')) = Some fl'' /\ fsnap fl'' = fsnap fl /\
-               finst fl'' = finst fl ++ collect sv [e].
+               finst fl'' = finst fl ++ collect sv (lead_dead fl) [e] /\
+               lead_dead fl'' = dead_after (lead_dead fl) [e].
 Proof. intros. cbn [wst wsv wfl]. split; [|split; [|split]]; auto. exists fl'. auto. Qed.
 
 Lemma step_mid (w : world) e fl : wfl w = Some fl -> is_end e = false -> Inv (wst w) ->
   Inv (wst (fst (step w e))) /\ pres (wst w) (wst (fst (step w e))) /\
   wsv (fst (step w e)) = srv_after (wsv w) [e] /\
   exists fl', wfl (fst (step w e)) = Some fl' /\ fsnap fl' = fsnap fl /\
-              finst fl' = finst fl ++ collect (wsv w) [e].
+              finst fl' = finst fl ++ collect (wsv w) (lead_dead fl) [e] /\
+              lead_dead fl' = dead_after (lead_dead fl) [e].
 Proof.
   destruct w as [st sv ofl]. cbn [wfl wst wsv]. intros -> NE I.
   assert (NIL : forall l : list (name * inst V), l = l ++ []) by (intro l; rewrite app_nil_r; auto).
-  destruct e as [now|n fail full| |o|n|n t|n t fail|]; cbn [step is_end] in *; try discriminate.
+  destruct e as [now|c|n fail full| |o|n|n t|n t fail|]; cbn [step is_end] in *; try discriminate.
   - apply mid_pack; cbn [fsnap finst collect]; auto using pres_refl.
+  - (* a caller's context ends *)
+    destruct ((c <=? fjoin fl)%nat && negb (gone fl c)) eqn:G; cbn [fst].
+    + apply mid_pack; cbn [fsnap finst]; auto using pres_refl.
+      * destruct c; cbn [collect]; auto.
+      * unfold lead_dead, gone. cbn [fgone existsb dead_after fold_left]. destruct c as [|c]; cbn [Nat.eqb orb]; auto.
+    + apply mid_pack; cbn [fsnap finst]; auto using pres_refl.
+      * destruct c; cbn [collect]; auto.
+      * cbn [dead_after fold_left]. destruct c as [|c]; auto.
+        apply andb_false_iff in G. destruct G as [G|G]; [discriminate|].
+        apply negb_false_iff in G. exact G.
   - apply mid_pack; cbn [fsnap finst collect]; auto using pres_refl.
   - apply mid_pack; cbn [fsnap finst collect]; auto using pres_refl.
   - assert (Q : fst (secret st n) = fst (secret_locked st n)).
@@ -360,36 +380,39 @@ Lemma run_mid : forall mid (w : world) fl, wfl w = Some fl -> no_end mid -> Inv 
   Inv (wst (run_w w mid)) /\ pres (wst w) (wst (run_w w mid)) /\
   wsv (run_w w mid) = srv_after (wsv w) mid /\
   exists fl', wfl (run_w w mid) = Some fl' /\ fsnap fl' = fsnap fl /\
-              finst fl' = finst fl ++ collect (wsv w) mid.
+              finst fl' = finst fl ++ collect (wsv w) (lead_dead fl) mid /\
+              lead_dead fl' = dead_after (lead_dead fl) mid.
 Proof.
   induction mid as [|e r IH]; intros w fl F NE I.
-  - cbn [run_w fold_left srv_after collect]. split; [|split; [|split]]; auto using pres_refl.
+  - cbn [run_w fold_left srv_after collect dead_after]. split; [|split; [|split]]; auto using pres_refl.
     exists fl. rewrite app_nil_r. auto.
-  - destruct (@step_mid w e fl F (NE e (or_introl eq_refl)) I) as (I1 & P1 & S1 & fl1 & F1 & Sn1 & In1).
+  - destruct (@step_mid w e fl F (NE e (or_introl eq_refl)) I) as (I1 & P1 & S1 & fl1 & F1 & Sn1 & In1 & D1).
     assert (NE' : no_end r) by (intros x Hx; apply NE; right; auto).
-    destruct (IH (fst (step w e)) fl1 F1 NE' I1) as (I2 & P2 & S2 & fl2 & F2 & Sn2 & In2).
+    destruct (IH (fst (step w e)) fl1 F1 NE' I1) as (I2 & P2 & S2 & fl2 & F2 & Sn2 & In2 & D2).
     change (run_w w (e :: r)) with (run_w (fst (step w e)) r).
     split; [|split; [|split]]; auto.
     + eapply pres_trans; eauto.
     + rewrite S2, S1. reflexivity.
-    + exists fl2. split; [|split]; auto; try congruence.
-      rewrite In2, In1, S1, (collect_cons (wsv w) e r), app_assoc. reflexivity.
+    + exists fl2. split; [|split; [|split]]; auto; try congruence.
+      * rewrite In2, In1, S1, D1, (collect_cons (wsv w) (lead_dead fl) e r), app_assoc. reflexivity.
+      * rewrite D2, D1. reflexivity.
 Qed.
 
 Lemma run_mid_srv (mid : list event) (w : world) fl : wfl w = Some fl -> no_end mid -> Inv (wst w) ->
   wsv (run_w w mid) = srv_after (wsv w) mid.
 Proof. intros F NE I. exact (proj1 (proj2 (proj2 (@run_mid mid w fl F NE I)))). Qed.
 
-(* the first request for n in a stretch of events, and the service state at that instant *)
-Lemma collect_assoc : forall (mid : list event) sv n sv' f u, assoc n (collect sv mid) = Some (sv', f, u) ->
-  exists mid1 mid2, mid = mid1 ++ EReq n f u :: mid2 /\ sv' = srv_after sv mid1.
+(* the first request for n in a stretch of events, the service state at that instant, and whether
+   the leader's context had ended by then *)
+Lemma collect_assoc : forall (mid : list event) sv d n sv' f' u, assoc n (collect sv d mid) = Some (sv', f', u) ->
+  exists mid1 mid2 f, mid = mid1 ++ EReq n f u :: mid2 /\ sv' = srv_after sv mid1 /\ f' = f || dead_after d mid1.
 Proof.
-  induction mid as [|e r IH]; intros sv n sv' f u H; [discriminate|].
-  destruct e as [now|n' f' u'| |o|k|k t|k t fl|]; cbn [collect] in H;
-    try (destruct (IH _ _ _ _ _ H) as (m1 & m2 & -> & ->); eexists (_ :: m1), m2; split; reflexivity).
+  induction mid as [|e r IH]; intros sv d n sv' f' u H; [discriminate|].
+  destruct e as [now|[|c]|n' f0 u'| |o|k|k t|k t fl|]; cbn [collect] in H;
+    try (destruct (IH _ _ _ _ _ _ H) as (m1 & m2 & f & -> & -> & ->); eexists (_ :: m1), m2, f; repeat split; reflexivity).
   cbn [assoc] in H. destruct (neqb n n') eqn:E.
-  - apply neqb_true in E. subst n'. injection H as <- <- <-. exists [], r. split; reflexivity.
-  - destruct (IH _ _ _ _ _ H) as (m1 & m2 & -> & ->). eexists (_ :: m1), m2. split; reflexivity.
+  - apply neqb_true in E. subst n'. injection H as <- <- <-. exists [], r, f0. repeat split; reflexivity.
+  - destruct (IH _ _ _ _ _ _ H) as (m1 & m2 & f & -> & -> & ->). eexists (_ :: m1), m2, f. repeat split; reflexivity.
 Qed.
 
 (* ---------- the theorems *)
@@ -403,22 +426,22 @@ Proof.
 Qed.
 
 Lemma step_begin (w0 : world) now : wfl w0 = None ->
-  fst (step w0 (ERefresh now)) = WD (wst w0) (wsv w0) (Some (FL (snapshot (wst w0) now) [] 0)).
+  fst (step w0 (ERefresh now)) = WD (wst w0) (wsv w0) (Some (FL (snapshot (wst w0) now) [] 0 [])).
 Proof. destruct w0 as [st sv ofl]. cbn [wfl]. intros ->. reflexivity. Qed.
 
 (* the state of affairs just before the end of a poll window *)
 Lemma window (w0 : world) now mid : Inv (wst w0) -> wfl w0 = None -> no_end mid ->
-  exists stk jn,
-    run_w w0 (ERefresh now :: mid) = WD stk (srv_after (wsv w0) mid) (Some (FL (snapshot (wst w0) now) (collect (wsv w0) mid) jn))
+  exists stk jn gn,
+    run_w w0 (ERefresh now :: mid) = WD stk (srv_after (wsv w0) mid) (Some (FL (snapshot (wst w0) now) (collect (wsv w0) false mid) jn gn))
     /\ Inv stk /\ pres (wst w0) stk.
 Proof.
   intros I F NE. change (run_w w0 (ERefresh now :: mid)) with (run_w (fst (step w0 (ERefresh now))) mid).
   rewrite step_begin by auto.
-  destruct (@run_mid mid (WD (wst w0) (wsv w0) (Some (FL (snapshot (wst w0) now) [] 0))) _ eq_refl NE I)
-    as (Ik & Pk & Sk & flk & Fk & Snk & Ink).
+  destruct (@run_mid mid (WD (wst w0) (wsv w0) (Some (FL (snapshot (wst w0) now) [] 0 []))) _ eq_refl NE I)
+    as (Ik & Pk & Sk & flk & Fk & Snk & Ink & _).
   cbn [wst wsv fsnap finst app] in *.
   destruct (run_w _ mid) as [stk svk oflk]. cbn [wst wsv wfl] in *. subst.
-  destruct flk as [sn ins jn]. cbn [fsnap finst] in *. subst. exists stk, jn. auto.
+  destruct flk as [sn ins jn gn]. cbn [fsnap finst] in *. subst. exists stk, jn, gn. auto.
 Qed.
 
 Theorem poll_fresh (w0 : world) now mid :
@@ -433,11 +456,11 @@ Theorem poll_fresh (w0 : world) now mid :
           find n (srv_after (wsv w0) mid1) = Some (v, b) /\
           (r = Some (v, b) \/ (v = ver0 /\ r = Some (ver0, b0)))).
 Proof.
-  intros I F NE wk. destruct (@window w0 now mid I F NE) as (stk & jn & W & Ik & Pk).
+  intros I F NE wk. destruct (@window w0 now mid I F NE) as (stk & jn & gn & W & Ik & Pk).
   subst wk. rewrite W. cbn [step].
   destruct (finish stk _) as [[s' fx] ok] eqn:FI. cbn [fst snd wst].
   intro R. apply res_in_outs in R. subst ok.
-  destruct (@finish_true _ _ _ _ _ _ _ I Ik FI) as (Fm & NErr & _ & _).
+  destruct (@finish_true _ _ _ _ _ _ _ _ I Ik FI) as (Fm & NErr & _ & _).
   intros n ver0 b0 V0. rewrite Fm. unfold formula.
   assert (E0 : exists e, entry (wst w0) n = Some e /\ ver e = ver0 /\ val e = b0).
   { unfold vv in V0. destruct (entry (wst w0) n) as [e|]; [|discriminate]. injection V0 as <- <-. eauto. }
@@ -445,9 +468,10 @@ Proof.
   destruct (flagged (wst w0) now n) eqn:Fl.
   - left. split; auto. destruct (has_handle stk n); auto.
   - right. specialize (NErr n e En Fl). unfold ans_of in *.
-    destruct (assoc n (collect (wsv w0) mid)) as [[[sv' f] u]|] eqn:A; [|congruence].
-    destruct (collect_assoc _ _ _ A) as (mid1 & mid2 & -> & ->).
-    unfold answer in *. destruct f; [congruence|]. unfold get_if_changed in *.
+    destruct (assoc n (collect (wsv w0) false mid)) as [[[sv' f'] u]|] eqn:A; [|congruence].
+    destruct (collect_assoc _ _ _ _ A) as (mid1 & mid2 & f & -> & -> & ->).
+    unfold answer in *. destruct (f || dead_after false mid1) eqn:FD; [congruence|].
+    apply orb_false_elim in FD. destruct FD as [-> _]. unfold get_if_changed in *.
     destruct (find n (srv_after (wsv w0) mid1)) as [[v b]|] eqn:Fs; [|congruence].
     exists mid1, false, u, mid2, v, b. split; auto. split; auto.
     destruct ((v =? ver e)%N && negb u) eqn:C.
@@ -488,18 +512,34 @@ Proof.
   intros d H. cbn [flush_out map app] in H. apply repeat_spec in H. discriminate.
 Qed.
 
-Lemma collect_first : forall (mid1 : list event) sv n f u mid2,
+Lemma collect_skip : forall (mid1 : list event) sv d n rest,
   (forall f' u', ~ In (EReq n f' u') mid1) ->
-  assoc n (collect sv (mid1 ++ EReq n f u :: mid2)) = Some (srv_after sv mid1, f, u).
+  assoc n (collect sv d (mid1 ++ rest)) = assoc n (collect (srv_after sv mid1) (dead_after d mid1) rest).
 Proof.
-  induction mid1 as [|e r IH]; intros sv n f u mid2 NI.
-  - cbn [app collect assoc srv_after fold_left]. assert (E : neqb n n = true) by (apply neqb_true; auto).
-    rewrite E. reflexivity.
-  - assert (NI' : forall f' u', ~ In (EReq n f' u') r) by (intros f' u' H; apply (NI f' u'); right; auto).
-    destruct e as [now|n' f' u'| |o|k|k t|k t fl|]; cbn [app collect]; try (apply IH; auto).
-    cbn [assoc]. destruct (neqb n n') eqn:E.
-    + apply neqb_true in E. subst n'. exfalso. apply (NI f' u'). left; auto.
-    + apply IH; auto.
+  induction mid1 as [|e r IH]; intros sv d n rest NI; [reflexivity|].
+  assert (NI' : forall f' u', ~ In (EReq n f' u') r) by (intros f' u' H; apply (NI f' u'); right; auto).
+  destruct e as [now|[|c]|n' f' u'| |o|k|k t|k t fl|]; cbn [app collect]; try (apply IH; auto).
+  cbn [assoc]. destruct (neqb n n') eqn:E.
+  - apply neqb_true in E. subst n'. exfalso. apply (NI f' u'). left; auto.
+  - apply IH; auto.
+Qed.
+
+Lemma collect_first (mid1 : list event) sv d n f u mid2 :
+  (forall f' u', ~ In (EReq n f' u') mid1) ->
+  assoc n (collect sv d (mid1 ++ EReq n f u :: mid2)) = Some (srv_after sv mid1, f || dead_after d mid1, u).
+Proof.
+  intro NI. rewrite collect_skip by auto. cbn [collect assoc].
+  assert (E : neqb n n = true) by (apply neqb_true; auto). rewrite E. reflexivity.
+Qed.
+
+(* once the leader's context has ended every further request is a failed one *)
+Lemma collect_dead : forall (evs : list event) sv n sv' f u,
+  assoc n (collect sv true evs) = Some (sv', f, u) -> f = true.
+Proof.
+  induction evs as [|e r IH]; intros sv n sv' f u H; [discriminate|].
+  destruct e as [now|[|c]|n' f' u'| |o|k|k t|k t fl|]; cbn [collect] in H; try solve [eapply IH; eauto].
+  cbn [assoc] in H. destruct (neqb n n'); [|eapply IH; exact H].
+  injection H as _ <- _. apply orb_true_r.
 Qed.
 
 (* a request for a live name that fails (scripted failure, or the name is gone from the service
@@ -510,14 +550,33 @@ Theorem poll_failure (w0 : world) now mid mid1 n f u mid2 e :
   mid = mid1 ++ EReq n f u :: mid2 -> (forall f' u', ~ In (EReq n f' u') mid1) ->
   (f = true \/ find n (srv_after (wsv w0) mid1) = None) ->
   let wk := run_w w0 (ERefresh now :: mid) in
-  wst (fst (step wk EEnd)) = wst wk /\ exists k, snd (step wk EEnd) = repeat (ORes false) (S k).
+  wst (fst (step wk EEnd)) = wst wk /\ exists k, snd (step wk EEnd) = repeat (ORes false) k.
 Proof.
-  intros I F NE En Fl E NI Bad wk. destruct (@window w0 now mid I F NE) as (stk & jn & W & Ik & Pk).
+  intros I F NE En Fl E NI Bad wk. destruct (@window w0 now mid I F NE) as (stk & jn & gn & W & Ik & Pk).
   subst wk. rewrite W. cbn [step].
-  rewrite (@finish_fails (wst w0) now stk (collect (wsv w0) mid) jn n e); auto.
-  - cbn [fst snd wst flush_out map app fjoin]. split; auto. exists jn. reflexivity.
+  rewrite (@finish_fails (wst w0) now stk (collect (wsv w0) false mid) jn gn n e); auto.
+  - cbn [fst snd wst flush_out map app]. split; auto. eexists. reflexivity.
   - unfold ans_of. rewrite E, collect_first by auto. unfold answer, get_if_changed.
-    destruct Bad as [->| ->]; auto. destruct f; auto.
+    destruct Bad as [->| ->]; auto. destruct (f || dead_after false mid1); auto.
+Qed.
+
+(* the leader's context ends while some live name has not been requested yet: the poll fails for
+   everybody still waiting - whatever happens afterwards (requests, joiners, service changes) -
+   and nothing is applied *)
+Theorem poll_cancelled (w0 : world) now mid mid1 mid2 n e :
+  Inv (wst w0) -> wfl w0 = None -> no_end mid ->
+  entry (wst w0) n = Some e -> flagged (wst w0) now n = false ->
+  mid = mid1 ++ ECancel 0 :: mid2 -> (forall f' u', ~ In (EReq n f' u') mid1) ->
+  let wk := run_w w0 (ERefresh now :: mid) in
+  wst (fst (step wk EEnd)) = wst wk /\ exists k, snd (step wk EEnd) = repeat (ORes false) k.
+Proof.
+  intros I F NE En Fl E NI wk. destruct (@window w0 now mid I F NE) as (stk & jn & gn & W & Ik & Pk).
+  subst wk. rewrite W. cbn [step].
+  rewrite (@finish_fails (wst w0) now stk (collect (wsv w0) false mid) jn gn n e); auto.
+  - cbn [fst snd wst flush_out map app]. split; auto. eexists. reflexivity.
+  - unfold ans_of. rewrite E, collect_skip by auto. cbn [collect].
+    destruct (assoc n (collect _ true mid2)) as [[[sv' f] u]|] eqn:A; auto.
+    apply collect_dead in A. subst f. reflexivity.
 Qed.
 
 (* a name that has a handle is requested by every poll (the F3 repair) *)
@@ -550,18 +609,47 @@ Qed.
 
 (* ---------- single flight *)
 Theorem coalesced (st : store) sv fl now :
-  step (WD st sv (Some fl)) (ERefresh now) = (WD st sv (Some (FL (fsnap fl) (finst fl) (S (fjoin fl)))), [])
-  /\ exists fx ok, snd (step (WD st sv (Some fl)) EEnd) = flush_out fx ++ repeat (ORes ok) (S (fjoin fl)).
+  step (WD st sv (Some fl)) (ERefresh now) = (WD st sv (Some (FL (fsnap fl) (finst fl) (S (fjoin fl)) (fgone fl))), [])
+  /\ exists fx ok, snd (step (WD st sv (Some fl)) EEnd) = flush_out fx ++ repeat (ORes ok) (waiting fl).
 Proof.
   split; [reflexivity|]. cbn [step]. destruct (finish st fl) as [[s' fx] ok]. exists fx, ok. reflexivity.
+Qed.
+
+(* a caller whose context ends gets its context error at once (if it is still waiting) and
+   disturbs nothing: store, service, snapshot, collected answers and the other callers stay *)
+Theorem cancel_inert (w : world) k :
+  wst (fst (step w (ECancel k))) = wst w /\ wsv (fst (step w (ECancel k))) = wsv w /\
+  (snd (step w (ECancel k)) = [] \/ snd (step w (ECancel k)) = [OCtx]) /\
+  match wfl w, wfl (fst (step w (ECancel k))) with
+  | Some fl, Some fl' => fsnap fl' = fsnap fl /\ finst fl' = finst fl /\ fjoin fl' = fjoin fl
+  | None, None => True
+  | _, _ => False
+  end.
+Proof.
+  destruct w as [st sv [fl|]]; cbn [step wst wsv wfl fst snd]; auto.
+  destruct ((k <=? fjoin fl)%nat && negb (gone fl k)); cbn [wst wsv wfl fst snd fsnap finst fjoin]; auto 6.
+Qed.
+
+(* every caller still waiting at the end of a poll gets ONE verdict; nil is given only if every
+   live name's request succeeded and then everything collected was applied, an error only if
+   nothing was applied (so no caller is told success by a poll that applied a strict subset) *)
+Theorem one_verdict (w : world) fl : wfl w = Some fl ->
+  exists fx ok, snd (step w EEnd) = flush_out fx ++ repeat (ORes ok) (waiting fl) /\
+                finish (wst w) fl = (wst (fst (step w EEnd)), fx, ok) /\
+                (ok = false -> wst (fst (step w EEnd)) = wst w /\ fx = []).
+Proof.
+  destruct w as [st sv ofl]. cbn [wfl]. intros ->. cbn [step wst].
+  destruct (finish st fl) as [[s' fx] ok] eqn:FI. exists fx, ok. cbn [fst snd wst]. split; auto. split; auto.
+  intros ->. apply finish_false in FI. exact FI.
 Qed.
 
 (* requests are issued by request events only *)
 Theorem requests_only_from_reqs (w : world) e old r : In (OReq old r) (snd (step w e)) ->
   exists n f u, e = EReq n f u.
 Proof.
-  destruct w as [st sv ofl]. destruct e as [now|n f u| |o|k|k t|k t fl|]; cbn [step]; eauto.
+  destruct w as [st sv ofl]. destruct e as [now|c|n f u| |o|k|k t|k t fl|]; cbn [step]; eauto.
   - destruct ofl; intros [].
+  - destruct ofl as [fl|]; [|intros []]. destruct ((c <=? fjoin fl)%nat && negb (gone fl c)); [intros [H|[]]; discriminate|intros []].
   - destruct ofl as [fl|]; [|intros []]. destruct (finish st fl) as [[s' fx] ok]. cbn [snd]. intro H.
     apply in_app_or in H. destruct H as [H|H].
     + unfold flush_out in H. apply in_map_iff in H. destruct H as ([d] & H & _). discriminate.
@@ -584,7 +672,7 @@ Proof.
   - destruct (wfl w) as [fl|] eqn:F.
     + apply (@step_mid w e fl F E I).
     + destruct w as [st sv ofl]. cbn [wfl] in F. subst ofl. cbn [wst] in I.
-      destruct e as [now|n f u| |o|k|k t|k t fl|]; cbn [step fst wst]; auto; try discriminate.
+      destruct e as [now|c|n f u| |o|k|k t|k t fl|]; cbn [step fst wst]; auto; try discriminate.
       * assert (Q : fst (secret st k) = fst (secret_locked st k)).
         { unfold secret. destruct (secret_locked st k) as [s' ok]. destruct ok; [|destruct (allow st)]; reflexivity. }
         destruct (secret st k) as [st' h]. cbn [fst] in Q. subst st'. cbn [fst wst]. apply secret_locked_Inv; auto.
@@ -614,14 +702,16 @@ Lemma cache_step (w : world) e c : Inv (wst w) -> (forall n, doc_vv c n = vv (ws
   forall n, doc_vv (cache_after c (snd (step w e))) n = vv (wst (fst (step w e))) n.
 Proof.
   intros I C n. destruct w as [st sv ofl]. cbn [wst] in *.
-  destruct e as [now|k f u| |o|k|k t|k t fl|]; cbn [step].
+  destruct e as [now|cc|k f u| |o|k|k t|k t fl|]; cbn [step].
   - destruct ofl; cbn [fst snd wst cache_after fold_left]; auto.
+  - destruct ofl as [fl|]; [|cbn [fst snd wst cache_after fold_left]; auto].
+    destruct ((cc <=? fjoin fl)%nat && negb (gone fl cc)); cbn [fst snd wst cache_after fold_left]; auto.
   - destruct ofl; cbn [fst snd wst cache_after fold_left]; auto.
   - destruct ofl as [fl|]; [|cbn [fst snd wst cache_after fold_left]; auto].
     unfold finish. destruct (poll (fsnap fl) (ans_of (finst fl))) as [ups|].
     + unfold apply_updates. destruct ups as [|x r]; cbn [fst snd wst flush_out map app].
       * rewrite cache_after_res. auto.
-      * unfold cache_after. cbn [fold_left]. fold (cache_after (doc (fold_left (@apply1 V) r (apply1 st x))) (repeat (@ORes V true) (S (fjoin fl)))).
+      * unfold cache_after. cbn [fold_left]. fold (cache_after (doc (fold_left (@apply1 V) r (apply1 st x))) (repeat (@ORes V true) (waiting fl))).
         rewrite cache_after_res. apply doc_vv_doc.
     + cbn [fst snd wst flush_out map app]. rewrite cache_after_res. auto.
   - cbn [fst snd wst cache_after fold_left]; auto.
@@ -653,26 +743,26 @@ Qed.
 
 (* the flush at the end of a successful poll: the whole new state, or nothing when nothing changed *)
 Theorem poll_flush (w : world) : In (ORes true) (snd (step w EEnd)) ->
-  (exists k, snd (step w EEnd) = OFlush (doc (wst (fst (step w EEnd)))) :: repeat (ORes true) (S k))
+  (exists k, snd (step w EEnd) = OFlush (doc (wst (fst (step w EEnd)))) :: repeat (ORes true) k)
   \/ (wst (fst (step w EEnd)) = wst w /\ forall d, ~ In (OFlush d) (snd (step w EEnd))).
 Proof.
   destruct w as [st sv [fl|]]; cbn [step]; [|intros []].
   unfold finish. destruct (poll (fsnap fl) (ans_of (finst fl))) as [ups|].
   - unfold apply_updates. destruct ups as [|x r]; cbn [fst snd wst flush_out map app]; intros _.
     + right. split; auto. intros d H. apply repeat_spec in H. discriminate.
-    + left. exists (fjoin fl). reflexivity.
+    + left. exists (waiting fl). reflexivity.
   - cbn [fst snd wst flush_out map app]. intro H. apply repeat_spec in H. discriminate.
 Qed.
 
 (* ---------- convergence: a poll against a quiescent service that still serves every known name *)
-Lemma run_reqs : forall order (st : store) sv fl,
+Lemma run_reqs : forall order (st : store) sv fl, lead_dead fl = false ->
   run_w (WD st sv (Some fl)) (map (fun n => EReq n false false) order) =
-  WD st sv (Some (FL (fsnap fl) (finst fl ++ map (fun n => (n, (sv, false, false))) order) (fjoin fl))).
+  WD st sv (Some (FL (fsnap fl) (finst fl ++ map (fun n => (n, (sv, false, false))) order) (fjoin fl) (fgone fl))).
 Proof.
-  induction order as [|k r IH]; intros st sv fl.
+  induction order as [|k r IH]; intros st sv fl D.
   - cbn [map run_w fold_left]. rewrite app_nil_r. destruct fl; reflexivity.
   - cbn [map]. change (run_w ?w (?e :: ?l)) with (run_w (fst (step w e)) l). cbn [step fst].
-    rewrite IH. cbn [fsnap finst fjoin]. rewrite <- app_assoc. reflexivity.
+    rewrite IH by exact D. cbn [fsnap finst fjoin fgone]. rewrite D, <- app_assoc. reflexivity.
 Qed.
 
 Lemma assoc_map_in (sv : server V) order n : In n order ->
@@ -693,9 +783,9 @@ Theorem poll_converges (s : store) now sv order :
   forall n x, vv (wst (fst (step wk EEnd))) n = Some x -> find n sv = Some x.
 Proof.
   intros I Cov Srv Faith wk. subst wk.
-  change (run_w ?w (?e :: ?l)) with (run_w (fst (step w e)) l). cbn [step fst]. rewrite run_reqs.
-  cbn [fsnap finst fjoin app step].
-  match goal with |- context [finish _ (FL _ ?i _)] => set (insts := i) end.
+  change (run_w ?w (?e :: ?l)) with (run_w (fst (step w e)) l). cbn [step fst]. rewrite run_reqs by reflexivity.
+  cbn [fsnap finst fjoin fgone app step].
+  match goal with |- context [finish _ (FL _ ?i _ _)] => set (insts := i) end.
   assert (A : forall n e, entry s n = Some e -> flagged s now n = false ->
                           ans_of insts n (ver e) = get_if_changed sv n (ver e) false).
   { intros n e En Fl. unfold ans_of, insts. rewrite assoc_map_in; auto. apply Cov.
@@ -717,7 +807,7 @@ Proof.
       rewrite Fs in Hans. destruct ((v =? ver e)%N && negb false); discriminate. }
   subst ok.
   cbn [fst snd wst wfl fjoin repeat]. split; [exists fx; reflexivity|]. split; auto.
-  destruct (@finish_true s now s insts 0 s' fx I I FI) as (Fm & _ & _ & _).
+  destruct (@finish_true s now s insts 0 [] s' fx I I FI) as (Fm & _ & _ & _).
   intros n x Hx. rewrite Fm in Hx. unfold formula in Hx.
   destruct (entry s n) as [e|] eqn:En.
   - destruct (flagged s now n) eqn:Fl.
